@@ -1,8 +1,496 @@
-//! C14 harness entry (not implemented yet).
+//! C14: raw <-> protobuf (`Library::to_proto`, `Library::from_proto`).
+//!
+//! op "raw":   build a raw library through the public API, `to_proto`, then `from_proto`.
+//!             -> {"proto": P | {"err"} | {"panic"}, "raw": L' | {"err"} | {"panic"} | null}
+//! op "proto": build a proto::Library (prost structs are pub), `from_proto`, then `to_proto`.
+//!             -> {"raw": L | {"err"} | {"panic"}, "proto": P' | {"err"} | {"panic"} | null}
+//!
+//! Canonical output: LayerKeys are indices into the slot map (insertion order), cell pointers are
+//! indices into the library's cell list, doubles are bit patterns, hash-ordered things
+//! (abstract port / blockage layers of a raw library) are sorted by layer key, the exported message
+//! is printed as it is (the exporter iterates hash maps through `sorted_by_layer`), purposes are
+//! probed through `Layer::purpose`/`Layer::num`.
 use l21h::{json, Value};
+use layout21raw as raw;
+use raw::proto::proto;
+use raw::utils::Ptr;
+use std::collections::HashMap;
+use std::panic::{catch_unwind, AssertUnwindSafe};
 
-fn run(_case: &Value) -> Value {
-    json!({"harness_error": "not implemented"})
+// ------------------------------------------------------------------ JSON -> raw
+fn pt(v: &Value) -> raw::Point {
+    raw::Point::new(v[0].as_i64().expect("x") as isize, v[1].as_i64().expect("y") as isize)
+}
+fn pts(v: &Value) -> Vec<raw::Point> {
+    v.as_array().expect("points").iter().map(pt).collect()
+}
+fn purpose(v: &Value) -> raw::LayerPurpose {
+    use raw::LayerPurpose::*;
+    if let Some(s) = v.as_str() {
+        return match s {
+            "Drawing" => Drawing,
+            "Pin" => Pin,
+            "Label" => Label,
+            "Obstruction" => Obstruction,
+            "Outline" => Outline,
+            _ => panic!("harness: bad purpose"),
+        };
+    }
+    if let Some(k) = v.get("Other") {
+        return Other(k.as_i64().unwrap() as i16);
+    }
+    if let Some(a) = v.get("Named") {
+        return Named(a[0].as_str().unwrap().to_string(), a[1].as_i64().unwrap() as i16);
+    }
+    panic!("harness: bad purpose")
+}
+fn shape(v: &Value) -> raw::Shape {
+    if let Some(r) = v.get("R") {
+        return raw::Shape::Rect(raw::Rect { p0: pt(&r[0]), p1: pt(&r[1]) });
+    }
+    if let Some(g) = v.get("G") {
+        return raw::Shape::Polygon(raw::Polygon { points: pts(g) });
+    }
+    if let Some(p) = v.get("P") {
+        return raw::Shape::Path(raw::Path { points: pts(&p[0]), width: p[1].as_u64().expect("width") as usize });
+    }
+    panic!("harness: bad shape")
+}
+fn build_layers(spec: &Value) -> (raw::Layers, Vec<raw::LayerKey>) {
+    let mut layers = raw::Layers::default();
+    let mut keys = Vec::new();
+    for l in spec.as_array().expect("layers") {
+        let pairs: Vec<(i16, raw::LayerPurpose)> = l["pairs"]
+            .as_array()
+            .unwrap()
+            .iter()
+            .map(|p| (p[0].as_i64().unwrap() as i16, purpose(&p[1])))
+            .collect();
+        let mut layer = raw::Layer::from_pairs(l["num"].as_i64().unwrap() as i16, &pairs).expect("harness: from_pairs");
+        layer.name = l["name"].as_str().map(|s| s.to_string());
+        keys.push(layers.add(layer));
+    }
+    (layers, keys)
+}
+fn key_of(keys: &[raw::LayerKey], v: &Value) -> raw::LayerKey {
+    // an index past the table stands for a key that is in no slot
+    match v.as_u64() {
+        Some(k) if (k as usize) < keys.len() => keys[k as usize],
+        _ => raw::LayerKey::default(),
+    }
+}
+fn shapemap(keys: &[raw::LayerKey], v: &Value) -> HashMap<raw::LayerKey, Vec<raw::Shape>> {
+    let mut m = HashMap::new();
+    for e in v.as_array().expect("shapemap") {
+        m.insert(key_of(keys, &e[0]), e[1].as_array().unwrap().iter().map(shape).collect());
+    }
+    m
+}
+fn build_lib(spec: &Value) -> raw::Library {
+    let units = match spec["units"].as_str().unwrap() {
+        "Micro" => raw::Units::Micro,
+        "Nano" => raw::Units::Nano,
+        "Angstrom" => raw::Units::Angstrom,
+        "Pico" => raw::Units::Pico,
+        _ => panic!("harness: bad units"),
+    };
+    let mut lib = raw::Library::new(spec["name"].as_str().unwrap(), units);
+    let (layers, keys) = build_layers(&spec["layers"]);
+    lib.layers = Ptr::new(layers);
+    // create every cell first so that instances can point at cells listed later
+    let cspecs = spec["cells"].as_array().expect("cells");
+    let ptrs: Vec<Ptr<raw::Cell>> = cspecs
+        .iter()
+        .map(|c| lib.cells.insert(raw::Cell::new(c["name"].as_str().unwrap())))
+        .collect();
+    for (c, p) in cspecs.iter().zip(ptrs.iter()) {
+        let mut cell = p.write().unwrap();
+        if !c["layout"].is_null() {
+            let l = &c["layout"];
+            cell.layout = Some(raw::Layout {
+                name: l["name"].as_str().unwrap().to_string(),
+                insts: l["insts"]
+                    .as_array()
+                    .unwrap()
+                    .iter()
+                    .map(|i| raw::Instance {
+                        inst_name: i["name"].as_str().unwrap().to_string(),
+                        cell: ptrs[i["cell"].as_u64().unwrap() as usize].clone(),
+                        loc: pt(&i["loc"]),
+                        reflect_vert: i["reflect"].as_bool().unwrap(),
+                        angle: i["angle"].as_u64().map(f64::from_bits),
+                    })
+                    .collect(),
+                elems: l["elems"]
+                    .as_array()
+                    .unwrap()
+                    .iter()
+                    .map(|e| raw::Element {
+                        net: e["net"].as_str().map(|s| s.to_string()),
+                        layer: key_of(&keys, &e["layer"]),
+                        purpose: purpose(&e["purpose"]),
+                        inner: shape(&e["shape"]),
+                    })
+                    .collect(),
+                annotations: l["annots"]
+                    .as_array()
+                    .unwrap()
+                    .iter()
+                    .map(|a| raw::TextElement { string: a[0].as_str().unwrap().to_string(), loc: pt(&a[1]) })
+                    .collect(),
+            });
+        }
+        if !c["abs"].is_null() {
+            let a = &c["abs"];
+            cell.abs = Some(raw::Abstract {
+                name: a["name"].as_str().unwrap().to_string(),
+                outline: raw::Polygon { points: pts(&a["outline"]) },
+                ports: a["ports"]
+                    .as_array()
+                    .unwrap()
+                    .iter()
+                    .map(|p| raw::AbstractPort {
+                        net: p["net"].as_str().unwrap().to_string(),
+                        shapes: shapemap(&keys, &p["shapes"]),
+                    })
+                    .collect(),
+                blockages: shapemap(&keys, &a["blockages"]),
+            });
+        }
+    }
+    lib
+}
+
+// ------------------------------------------------------------------ raw -> JSON
+fn jpt(p: &raw::Point) -> Value {
+    json!([p.x as i64, p.y as i64])
+}
+fn jpurpose(p: &raw::LayerPurpose) -> Value {
+    use raw::LayerPurpose::*;
+    match p {
+        Drawing => json!("Drawing"),
+        Pin => json!("Pin"),
+        Label => json!("Label"),
+        Obstruction => json!("Obstruction"),
+        Outline => json!("Outline"),
+        Named(s, k) => json!({"Named": [s, k]}),
+        Other(k) => json!({ "Other": k }),
+    }
+}
+fn jshape(s: &raw::Shape) -> Value {
+    match s {
+        raw::Shape::Rect(r) => json!({"R": [jpt(&r.p0), jpt(&r.p1)]}),
+        raw::Shape::Polygon(p) => json!({"G": p.points.iter().map(jpt).collect::<Vec<_>>()}),
+        raw::Shape::Path(p) => json!({"P": [p.points.iter().map(jpt).collect::<Vec<_>>(), p.width as u64]}),
+    }
+}
+fn jshapemap(kidx: &HashMap<raw::LayerKey, usize>, nkeys: usize, m: &HashMap<raw::LayerKey, Vec<raw::Shape>>) -> Value {
+    let mut v: Vec<(usize, Value)> = m
+        .iter()
+        .map(|(k, s)| (*kidx.get(k).unwrap_or(&nkeys), Value::Array(s.iter().map(jshape).collect())))
+        .collect();
+    v.sort_by_key(|e| e.0);
+    Value::Array(v.into_iter().map(|(k, s)| json!([k, s])).collect())
+}
+fn jlib(lib: &raw::Library, probe: &[i16]) -> Value {
+    let layers = lib.layers.read().unwrap();
+    let mut kidx = HashMap::new();
+    let mut jlayers = Vec::new();
+    for (i, (k, l)) in layers.slots.iter().enumerate() {
+        kidx.insert(k, i);
+        let mut pairs = Vec::new();
+        for n in probe {
+            if let Some(p) = l.purpose(*n) {
+                pairs.push(json!([n, jpurpose(p), l.num(p)]));
+            }
+        }
+        jlayers.push(json!({"num": l.layernum, "name": l.name, "pairs": pairs, "keynum": layers.keynum(l.layernum).map(|k2| k2 == k)}));
+    }
+    let nkeys = kidx.len();
+    let cidx = |p: &Ptr<raw::Cell>| -> Value {
+        match lib.cells.iter().position(|q| q == p) {
+            Some(i) => json!(i),
+            None => Value::Null,
+        }
+    };
+    let mut jcells = Vec::new();
+    for c in lib.cells.iter() {
+        let c = c.read().unwrap();
+        let layout = match &c.layout {
+            None => Value::Null,
+            Some(l) => json!({
+                "name": l.name,
+                "insts": l.insts.iter().map(|i| json!({
+                    "name": i.inst_name, "cell": cidx(&i.cell), "loc": jpt(&i.loc),
+                    "reflect": i.reflect_vert, "angle": i.angle.map(|a| a.to_bits())})).collect::<Vec<_>>(),
+                "elems": l.elems.iter().map(|e| json!({
+                    "net": e.net, "layer": *kidx.get(&e.layer).unwrap_or(&nkeys),
+                    "purpose": jpurpose(&e.purpose), "shape": jshape(&e.inner)})).collect::<Vec<_>>(),
+                "annots": l.annotations.iter().map(|a| json!([a.string, jpt(&a.loc)])).collect::<Vec<_>>(),
+            }),
+        };
+        let abs = match &c.abs {
+            None => Value::Null,
+            Some(a) => json!({
+                "name": a.name,
+                "outline": a.outline.points.iter().map(jpt).collect::<Vec<_>>(),
+                "ports": a.ports.iter().map(|p| json!({"net": p.net, "shapes": jshapemap(&kidx, nkeys, &p.shapes)})).collect::<Vec<_>>(),
+                "blockages": jshapemap(&kidx, nkeys, &a.blockages),
+            }),
+        };
+        jcells.push(json!({"name": c.name, "layout": layout, "abs": abs}));
+    }
+    let units = match lib.units {
+        raw::Units::Micro => "Micro",
+        raw::Units::Nano => "Nano",
+        raw::Units::Angstrom => "Angstrom",
+        raw::Units::Pico => "Pico",
+    };
+    json!({"name": lib.name, "units": units, "layers": jlayers, "cells": jcells})
+}
+
+// ------------------------------------------------------------------ JSON <-> proto
+fn ppt(v: &Value) -> Option<proto::Point> {
+    if v.is_null() {
+        None
+    } else {
+        Some(proto::Point::new(v[0].as_i64().unwrap(), v[1].as_i64().unwrap()))
+    }
+}
+fn ppts(v: &Value) -> Vec<proto::Point> {
+    v.as_array().unwrap().iter().map(|p| ppt(p).unwrap()).collect()
+}
+fn s(v: &Value) -> String {
+    v.as_str().expect("string").to_string()
+}
+fn ppoly(v: &Value) -> proto::Polygon {
+    proto::Polygon { net: s(&v["net"]), vertices: ppts(&v["v"]) }
+}
+fn pls(v: &Value) -> proto::LayerShapes {
+    proto::LayerShapes {
+        layer: if v["layer"].is_null() {
+            None
+        } else {
+            Some(proto::Layer::new(v["layer"][0].as_i64().unwrap(), v["layer"][1].as_i64().unwrap()))
+        },
+        rectangles: v["rects"]
+            .as_array()
+            .unwrap()
+            .iter()
+            .map(|r| proto::Rectangle {
+                net: s(&r["net"]),
+                lower_left: ppt(&r["ll"]),
+                width: r["w"].as_i64().unwrap(),
+                height: r["h"].as_i64().unwrap(),
+            })
+            .collect(),
+        polygons: v["polys"].as_array().unwrap().iter().map(ppoly).collect(),
+        paths: v["paths"]
+            .as_array()
+            .unwrap()
+            .iter()
+            .map(|p| proto::Path { net: s(&p["net"]), points: ppts(&p["pts"]), width: p["w"].as_i64().unwrap() })
+            .collect(),
+    }
+}
+fn plss(v: &Value) -> Vec<proto::LayerShapes> {
+    v.as_array().unwrap().iter().map(pls).collect()
+}
+fn build_plib(v: &Value) -> proto::Library {
+    let mut plib = proto::Library::default();
+    plib.domain = s(&v["domain"]);
+    plib.units = v["units"].as_i64().unwrap() as i32;
+    if v["author"].as_bool().unwrap_or(false) {
+        plib.author = Some(proto::AuthorMetadata { author: "a".into(), copyright: "".into(), license: "".into() });
+    }
+    for c in v["cells"].as_array().unwrap() {
+        let mut pc = proto::Cell::default();
+        pc.name = s(&c["name"]);
+        if c["circuit"].as_bool().unwrap_or(false) {
+            pc.interface = Some(proto::Interface { name: pc.name.clone(), ports: Vec::new() });
+        }
+        if !c["abs"].is_null() {
+            let a = &c["abs"];
+            pc.r#abstract = Some(proto::Abstract {
+                name: s(&a["name"]),
+                outline: if a["outline"].is_null() { None } else { Some(ppoly(&a["outline"])) },
+                ports: a["ports"]
+                    .as_array()
+                    .unwrap()
+                    .iter()
+                    .map(|p| proto::AbstractPort { net: s(&p["net"]), shapes: plss(&p["shapes"]) })
+                    .collect(),
+                blockages: plss(&a["blockages"]),
+            });
+        }
+        if !c["layout"].is_null() {
+            let l = &c["layout"];
+            pc.layout = Some(proto::Layout {
+                name: s(&l["name"]),
+                shapes: plss(&l["shapes"]),
+                instances: l["insts"]
+                    .as_array()
+                    .unwrap()
+                    .iter()
+                    .map(|i| proto::Instance {
+                        name: s(&i["name"]),
+                        cell: if i["cell"].is_null() {
+                            None
+                        } else if let Some(n) = i["cell"].get("local") {
+                            Some(proto::Reference { to: Some(proto::reference::To::Local(s(n))) })
+                        } else if let Some(e) = i["cell"].get("ext") {
+                            Some(proto::Reference {
+                                to: Some(proto::reference::To::External(proto::QualifiedName { domain: s(&e[0]), name: s(&e[1]) })),
+                            })
+                        } else {
+                            Some(proto::Reference { to: None })
+                        },
+                        origin_location: ppt(&i["origin"]),
+                        reflect_vert: i["reflect"].as_bool().unwrap(),
+                        rotation_clockwise_degrees: i["rot"].as_i64().unwrap() as i32,
+                    })
+                    .collect(),
+                annotations: l["annots"]
+                    .as_array()
+                    .unwrap()
+                    .iter()
+                    .map(|a| proto::TextElement { string: s(&a["s"]), loc: ppt(&a["loc"]) })
+                    .collect(),
+            });
+        }
+        plib.cells.push(pc);
+    }
+    plib
+}
+fn jppt(p: &Option<proto::Point>) -> Value {
+    match p {
+        Some(p) => json!([p.x, p.y]),
+        None => Value::Null,
+    }
+}
+fn jppts(v: &[proto::Point]) -> Value {
+    Value::Array(v.iter().map(|p| json!([p.x, p.y])).collect())
+}
+fn jppoly(p: &proto::Polygon) -> Value {
+    json!({"net": p.net, "v": jppts(&p.vertices)})
+}
+fn jpls(l: &proto::LayerShapes) -> Value {
+    json!({
+        "layer": l.layer.as_ref().map(|x| json!([x.number, x.purpose])),
+        "rects": l.rectangles.iter().map(|r| json!({"net": r.net, "ll": jppt(&r.lower_left), "w": r.width, "h": r.height})).collect::<Vec<_>>(),
+        "polys": l.polygons.iter().map(jppoly).collect::<Vec<_>>(),
+        "paths": l.paths.iter().map(|p| json!({"net": p.net, "pts": jppts(&p.points), "w": p.width})).collect::<Vec<_>>(),
+    })
+}
+/// hash-ordered lists (abstract ports' shapes, blockages) are printed sorted by layer (stable)
+fn jplss(v: &[proto::LayerShapes], sort: bool) -> Value {
+    let mut idx: Vec<&proto::LayerShapes> = v.iter().collect();
+    if sort {
+        idx.sort_by_key(|l| l.layer.as_ref().map(|x| (x.number, x.purpose)));
+    }
+    Value::Array(idx.into_iter().map(jpls).collect())
+}
+fn jplib(p: &proto::Library) -> Value {
+    let mut cells = Vec::new();
+    for c in &p.cells {
+        let abs = match &c.r#abstract {
+            None => Value::Null,
+            Some(a) => json!({
+                "name": a.name,
+                "outline": a.outline.as_ref().map(jppoly),
+                "ports": a.ports.iter().map(|p| json!({"net": p.net, "shapes": jplss(&p.shapes, false)})).collect::<Vec<_>>(),
+                "blockages": jplss(&a.blockages, false),
+            }),
+        };
+        let layout = match &c.layout {
+            None => Value::Null,
+            Some(l) => json!({
+                "name": l.name,
+                "shapes": jplss(&l.shapes, false),
+                "insts": l.instances.iter().map(|i| json!({
+                    "name": i.name,
+                    "cell": match &i.cell {
+                        None => Value::Null,
+                        Some(r) => match &r.to {
+                            None => json!({"to": Value::Null}),
+                            Some(proto::reference::To::Local(n)) => json!({"local": n}),
+                            Some(proto::reference::To::External(q)) => json!({"ext": [q.domain, q.name]}),
+                        },
+                    },
+                    "origin": jppt(&i.origin_location), "reflect": i.reflect_vert, "rot": i.rotation_clockwise_degrees})).collect::<Vec<_>>(),
+                "annots": l.annotations.iter().map(|a| json!({"s": a.string, "loc": jppt(&a.loc)})).collect::<Vec<_>>(),
+            }),
+        };
+        cells.push(json!({"name": c.name, "circuit": c.interface.is_some() || c.module.is_some(), "abs": abs, "layout": layout}));
+    }
+    json!({"domain": p.domain, "units": p.units, "author": p.author.is_some(), "cells": cells})
+}
+
+// ------------------------------------------------------------------ driver
+fn staged<T>(f: impl FnOnce() -> raw::LayoutResult<T>) -> Result<T, Value> {
+    match catch_unwind(AssertUnwindSafe(f)) {
+        Ok(Ok(v)) => Ok(v),
+        Ok(Err(e)) => Err(json!({ "err": format!("{:?}", e).chars().take(160).collect::<String>() })),
+        Err(p) => {
+            let msg = if let Some(s) = p.downcast_ref::<&str>() {
+                s.to_string()
+            } else if let Some(s) = p.downcast_ref::<String>() {
+                s.clone()
+            } else {
+                "panic".to_string()
+            };
+            Err(json!({ "panic": msg }))
+        }
+    }
+}
+fn probes(case: &Value) -> Vec<i16> {
+    let mut v: Vec<i16> = (-1..=12).collect();
+    if let Some(a) = case["probe"].as_array() {
+        for x in a {
+            let k = x.as_i64().unwrap() as i16;
+            if !v.contains(&k) {
+                v.push(k);
+            }
+        }
+    }
+    v.sort();
+    v
+}
+
+fn run(case: &Value) -> Value {
+    let probe = probes(case);
+    match case["op"].as_str().unwrap_or("") {
+        "raw" => {
+            let lib = build_lib(&case["lib"]);
+            let plib = match staged(|| lib.to_proto()) {
+                Ok(p) => p,
+                Err(e) => return json!({"proto": e, "raw": Value::Null}),
+            };
+            let jp = jplib(&plib);
+            let layers = match case["import_layers"].as_str().unwrap_or("none") {
+                "same" => Some(Ptr::new(lib.layers.read().unwrap().clone())),
+                _ => None,
+            };
+            match staged(|| raw::Library::from_proto(plib, layers)) {
+                Ok(l2) => json!({"proto": jp, "raw": jlib(&l2, &probe)}),
+                Err(e) => json!({"proto": jp, "raw": e}),
+            }
+        }
+        "proto" => {
+            let plib = build_plib(&case["plib"]);
+            let layers = if case["layers"].is_null() { None } else { Some(Ptr::new(build_layers(&case["layers"]).0)) };
+            let lib = match staged(|| raw::Library::from_proto(plib, layers)) {
+                Ok(l) => l,
+                Err(e) => return json!({"raw": e, "proto": Value::Null}),
+            };
+            let jl = jlib(&lib, &probe);
+            match staged(|| lib.to_proto()) {
+                Ok(p2) => json!({"raw": jl, "proto": jplib(&p2)}),
+                Err(e) => json!({"raw": jl, "proto": e}),
+            }
+        }
+        _ => json!({"harness_error": "bad op"}),
+    }
 }
 
 fn main() {
